@@ -207,3 +207,40 @@ def c20():
                   "non-trivial = transition whose triggered task set is non-empty",
                   plans, tags=["C20"], keys=keys, modes=("compiled", "pure"), hashseeds=hs, queries=False, cross_config=True,
                   extra_assume=("fault-injection plans are not part of the corpus: 'the k-th write' is not the same program under two legal task orders",))
+
+
+def _expr_plans(q):
+    if q:
+        return [dict(depth=3, size=1, mgr=1, ops="OpsAll", lits="LitsAll", envs="EnvsAll", full=True),
+                dict(depth=3, size=2, mgr=0, ops="OpsFew", lits="LitsTwo", envs="EnvsTwo", full=False),
+                dict(depth=6, size=3, mgr=2, ops="OpsAll", lits="LitsAll", envs="EnvsAll", full=True, simulate=60, fan_keep=0.03)]
+    return [dict(depth=4, size=1, mgr=2, ops="OpsAll", lits="LitsAll", envs="EnvsAll", full=True),
+            dict(depth=3, size=2, mgr=0, ops="OpsAll", lits="LitsFew", envs="EnvsAll", full=True),
+            dict(depth=4, size=3, mgr=0, ops="OpsFew", lits="LitsTwo", envs="EnvsOne", full=False),
+            dict(depth=8, size=4, mgr=3, ops="OpsAll", lits="LitsAll", envs="EnvsAll", full=True, simulate=3000, fan_keep=0.02)]
+
+
+@prop("C04")
+def c04():
+    from . import expr_engine as ee
+    q = _q()
+    return ee.run("C04", "model_checking",
+                  "Expr.tla: TLC enumerates expression construction (every binary operator x {ref op literal, literal op ref, ref op ref, ref-in-the-left} x the "
+                  "literal catalogue {-3,-1,0,1,2,3,True,False,0.5,-1.5,2.0,0.0}, unary operators, abs/round/divmod/trunc/floor/ceil with literal and reference "
+                  "parameters, calls with positional and keyword arguments, computed keys, LiteralExpr) over four container environments, then assignment, the 13 "
+                  "in-place operators on defined and undefined locations and operand changes; every transition is replayed on real reference objects and the built "
+                  "structure, value (by type and value), NaN / exception class are compared with the specification and with CPython on the mirrored term, also over "
+                  "complex, numpy-scalar and numpy-array operands. non-trivial = edge whose target expression has an operator node, or an in-place step",
+                  _expr_plans(q), tags=["C04"], modes=("compiled",) if q else ("compiled", "pure"), hashseeds=(0,))
+
+
+@prop("C05")
+def c05():
+    from . import expr_engine as ee
+    q = _q()
+    return ee.run("C05", "model_checking",
+                  "Expr.tla: for every expression TLC builds (every node class x every operand slot holding a reference directly or below other nodes: operands, "
+                  "builtin parameters, call arguments and keyword arguments, computed keys, expressions over a bare container reference) _get_dependencies() must be a "
+                  "set projecting exactly onto the specification's Locs; TLC checks on the model that a location whose change alters the value lies in Locs "
+                  "(invariant Sensitive). non-trivial = edge whose target expression has an operator node",
+                  _expr_plans(q), tags=["C05"], modes=("compiled",) if q else ("compiled", "pure"), hashseeds=(0,))
